@@ -308,6 +308,11 @@ def systematic(r, k, outpath_token="OUT"):
         imp, src, methods, tname = r.pick(srcs)
         m, a = r.pick(methods)
         hname = r.pick(sorted(HOLDERS))
+        # what is held: the dangerous module itself (random._os), or something earlier on the chain (random), the
+        # rest of the chain then being walked on the held value
+        chain = src.split(".")
+        k = r.randint(1, len(chain))
+        src, m = ".".join(chain[:k]), ".".join(chain[k:] + [m])
         body = HOLDERS[hname].format(src=src, m=m, a=a)
         res.append(("sys:%s:%s.%s" % (hname, tname, m), imp + "P = '" + outpath_token + "'\n" + body))
     return res
